@@ -9,8 +9,9 @@ gen_coords can consume what gen_params produced."
 
 Implementation side (harness/c11_real.py): the REAL composition
 `gen_params(name, outpath, inpath | lib, seq | seq_file)` into a temporary directory, then
-`Topology.from_gmx_topfile` on a minimal .top that `#include`s the written file and
-`MetaMolecule.from_itp` on the file; the molecule right before writing is captured by interposing
+`Topology.from_gmx_topfile` on a minimal .top that `#include`s the written file (`top`), on ONE .top
+whose text is the written itp followed by `[ system ]` / `[ molecules ]` (`flat`, the flattened form)
+and `MetaMolecule.from_itp` on the file (`itp`); the molecule right before writing is captured by interposing
 `vermouth.gmx.itp.write_molecule_itp` inside this process (no source hook).  Dependency versions: the
 installed vermouth / networkx as they are.
 
@@ -20,7 +21,8 @@ Model side (Lean, Model/ItpIO.lean): `genParamsTail`/`writeGenParams` (writer), 
 Per case:
   correspondence  writer      : model lines of the captured molecule == lexed lines of the real file
                   reader-itp  : model `readItp` of the lexed real file == block `from_itp` returned
-                  reader-top  : model `readViaTop` ... == block `Topology.from_gmx_topfile` returned
+                  reader-top  : model `readViaTop` ... == block `Topology.from_gmx_topfile` returned (#include)
+                  reader-flat : model `readViaTop` ... == block `Topology.from_gmx_topfile` returned (single file)
                   resgraph    : model `resGraphOf` of the re-read block == residue graph of the re-read MetaMolecule
                   reader-malformed : mutated files, ok/reject and block (ties the error paths of the reader model)
                   wf-theorem  : when the captured molecule meets the hypotheses `WF` of `C11_roundtrip`
@@ -48,7 +50,8 @@ RULE = ("(a) generated force fields: 1-3 blocks of 1-6 atoms, chain bonds or con
         "martini pair bond-under-#ifdef / constraint-under-#ifndef), 0-8 extra interactions drawn from all "
         "18 interaction sections writer and readers share, metas ifdef/ifndef/group/comment/version, links "
         "for a random subset of ordered residue-name pairs (bond + optional angle/dihedral/pair/exclusion, "
-        "guards), linear sequences of 1-6 residues or branched json graphs; (b) every library in "
+        "guards), optional `[ citations ]` with a user .bib (non-ASCII authors) and sometimes a key no .bib "
+        "defines, non-ASCII command line in the header, linear sequences of 1-6 residues or branched json graphs; (b) every library in "
         "polyply/data x sequences X:3, X:2 Y:1, X:1 Y:2 for blocks in links; (c) malformed files for the "
         "reader model.  Non-trivial = the file was written and holds >= 2 residues or >= 1 guarded "
         "interaction; distinct = hash of (force-field text | library, sequence)")
@@ -64,6 +67,11 @@ NUMBERS = ["1", "2", "9", "0.37", "0.25", "1250", "7000", "180", "120.5", "-0.5"
 ATYPES = ["P1", "SN1a", "C1", "Qd", "TC5", "opls_135"]
 TAGS = ["FLEXIBLE", "POSRES", "STIFF"]
 FINDING_SHAPES = os.environ.get("C11_FINDING_SHAPES") == "1"
+BIB_ENTRIES = {
+    "RefA": "@article{RefA,\n  author={Gr\u00fcnewald, Fabian and Doma\u0144ski, Jan},\n  journal={J. Ex\u00e4mple},\n"
+            "  year={2021},\n  doi={10.1000/a}\n}\n",
+    "RefB": "@article{RefB,\n  author={Souza, Paulo C T and Mart\u00ednez-Seara, Hector},\n  year={2019}\n}\n",
+}
 # shapes recorded in notes/C11_findings.md: real-code losses whose cause lies in the molecule that was
 # built (force-field content / link application / vermouth's writer conventions), reported to the
 # coordinator; judged only with C11_FINDING_SHAPES=1 or once known_findings.txt lists them
@@ -207,9 +215,19 @@ def gen_case(rng, index, thorough):
     for res_a, res_b in link_pairs:
         text += gen_link(rng, res_a, blocks[res_a], res_b, blocks[res_b], thorough) + [""]
     nres = rng.choice([1, 2, 2, 3, 3, 4, 5, 6] if thorough else [1, 2, 2, 3, 3, 4])
-    spec = dict(kind="generated", name=rng.choice(["poly", "mol_A", "P3", "x"]),
-                files={"ff_%d.ff" % index: "\n".join(text) + "\n"},
-                argv=["polyply", "gen_params", "-name", "poly", "-seq"] + ["R%s:1" % c for c in "AB"][:rng.randint(0, 2)])
+    files = {}
+    if rng.random() < 0.3:
+        # force-field wide citations: keys a user .bib defines (non-ASCII author names, as in the shipped
+        # libraries) and, sometimes, a key no loaded .bib defines (a .ff given without its .bib)
+        keys = rng.sample(sorted(BIB_ENTRIES), rng.randint(1, len(BIB_ENTRIES)))
+        files["refs_%d.bib" % index] = "".join(BIB_ENTRIES[k] for k in keys)
+        if rng.random() < 0.4:
+            keys.insert(rng.randint(0, len(keys)), "NoSuchRef")
+        text = ["[ citations ]"] + keys + [""] + text
+    files["ff_%d.ff" % index] = "\n".join(text) + "\n"
+    spec = dict(kind="generated", name=rng.choice(["poly", "mol_A", "P3", "x"]), files=files,
+                argv=["polyply", "gen_params", "-name", rng.choice(["poly", "polym\u00e8re", "\u03b1-PEO"]), "-seq"]
+                + ["R%s:1" % c for c in "AB"][:rng.randint(0, 2)])
     if rng.random() < 0.75 or nres < 3:
         seq = []
         for _ in range(nres):
@@ -302,6 +320,16 @@ def norm_block(block):
 
 
 def canon_lines(lines):
+    """comment texts stripped; the citation comment lines of the header compared as a multiset (their
+    order is the iteration order of a set and no part of the property)"""
+    lines = list(lines)
+    first = next((i for i, l in enumerate(lines) if l.get("k") == "h"), len(lines))
+    head = lines[:first]
+    start = next((i for i, l in enumerate(head) if l.get("k") == "c" and l["t"].strip().startswith("Please cite")), None)
+    if start is not None:
+        end = next((i for i in range(start + 1, len(head)) if head[i].get("k") != "c"), len(head))
+        head[start + 1:end] = sorted(head[start + 1:end], key=lambda l: l["t"].strip())
+    lines = head + lines[first:]
     out = []
     for line in lines:
         line = dict(line)
@@ -379,7 +407,7 @@ def run_case(spec):
         case["lines"] = lines
         ask("read_itp", dict(op="read", lines=lines, via="itp"))
         ask("read_top", dict(op="read", lines=lines, via="top"))
-        for via in ("top", "itp"):
+        for via in ("top", "itp", "flat"):
             got = res.get(via)
             if got and got["ok"]:
                 if model_writable(mol):
@@ -441,10 +469,10 @@ def judge(ctx, case, answers):
 
     # ---- (2) the readers accept the file and return the same molecule
     if res.get("written"):
-        for via, slot in (("itp", "read_itp"), ("top", "read_top")):
+        for via, slot in (("itp", "read_itp"), ("top", "read_top"), ("flat", "read_top")):
             got, model = res.get(via), ans(slot)
             impl = canon_block(got["block"]) if got["ok"] else None
-            if via == "top" and impl is not None:
+            if via in ("top", "flat") and impl is not None:
                 impl["name"], impl["nrexcl"] = got.get("block_name"), got.get("nrexcl")
             if via == "itp" and impl is not None:
                 impl["name"], impl["nrexcl"] = cap.get("moltype"), got.get("nrexcl")
@@ -452,7 +480,9 @@ def judge(ctx, case, answers):
             ctx.correspond("reader-" + via, impl, mod, replay)
             if not got["ok"]:
                 report(ctx, (why_kind(tail.get("why")) if tail else None) or "reread-refused", "the file gen_params wrote is refused by %s: %s (%s); input %s"
-                                % ("Topology.from_gmx_topfile" if via == "top" else "MetaMolecule.from_itp",
+                                % ({"top": "Topology.from_gmx_topfile (through #include)", "itp": "MetaMolecule.from_itp",
+                                    "flat": "Topology.from_gmx_topfile (single file: the written itp followed by "
+                                            "[ system ] / [ molecules ])"}[via],
                                    got["err"], got.get("cause"), describe(spec)), replay)
                 continue
             same = ans("same_" + via)
@@ -494,6 +524,13 @@ def judge(ctx, case, answers):
              guarded=("0" if guarded == 0 else ">=1"), missing_links=(None if "missing" not in cap else len(cap["missing"]) > 0))
     for name in sections_hit:
         ctx.tally(section=name)
+    if spec["kind"] == "generated":
+        fftext = "".join(spec["files"].values())
+        ctx.tally(user_citations=("none" if "[ citations ]" not in fftext else
+                                  "dangling-key" if "NoSuchRef" in fftext else "all-defined"),
+                  non_ascii_header=any(ord(ch) > 127 for ch in (res.get("text") or "").split("[ moleculetype ]")[0]))
+    else:
+        ctx.tally(non_ascii_header=any(ord(ch) > 127 for ch in (res.get("text") or "").split("[ moleculetype ]")[0]))
 
 
 def describe(spec):
